@@ -18,7 +18,7 @@ def run(tier, seed):
     T_ = 170 if quick else 1500
     try:
         for t in range(3):
-            for i in range(8):
+            for i in range(12):
                 s = src.replace('__T__', str(t)).replace('__I__', str(i)).replace('__F__', '0')
                 if quick:
                     s = s.replace('pre: sel(o0, o1, o2) < len(OUTPUTS)', 'pre: sel(o0, o1, o2) < len(OUTPUTS) and sel(b0, b1, b2) in (0, 3, 4, 6)')
